@@ -116,12 +116,12 @@ impl Prop for C13 {
       }
       // suffixed / annotated integers
       for k in INT_KINDS.iter().chain(["f32", "f64"].iter()) {
-        let spellings: Vec<&str> = vec!["suffix", "annot"];
+        let spellings: Vec<&str> = vec!["suffix", "annot", "annot-opt"];
         for sp in spellings {
           for mag in ["small", "ge2p53", "max-1", "max", "max+1", "far-over"] {
             let val: u128 = if is_int(k) { let m = int_max_u(k); match mag { "small" => rng.below(100) as u128, "ge2p53" => { if m <= (1u128 << 53) { continue; } (1u128 << 53) + 1 + 2 * rng.below(1000) as u128 } "max-1" => m - 1, "max" => m, "max+1" => { if *k == "u128" { continue; } m + 1 } _ => { if *k == "u128" { continue; } m.saturating_mul(3).saturating_add(7) } } }
                         else { match mag { "small" => rng.below(1000) as u128, "ge2p53" => (1u128 << 53) + 1, _ => continue } };
-            let text = if sp == "suffix" { format!("{}{}", val, k) } else { format!("{}<{}>", val, k) };
+            let text = if sp == "suffix" { format!("{}{}", val, k) } else if sp == "annot-opt" { format!("{}<{}?>", val, k) } else { format!("{}<{}>", val, k) };
             let cell = format!("form=typed;spell={};kind={};mag={}", sp, k, mag);
             let exp = if *k == "f64" { json!({"exact": sc_f64(val.to_string().parse().unwrap())}) } else if *k == "f32" { json!({"exact": sc_f32(val.to_string().parse().unwrap())}) }
               else if val <= int_max_u(k) { json!({"exact": if is_unsigned(k) { sc_u(k, val) } else { sc_i(k, val as i128) }}) }
@@ -132,7 +132,7 @@ impl Prop for C13 {
           if is_signed(k) {
             let m = int_min(k).unsigned_abs();
             for (mag, val) in [("neg-small", 1 + rng.below(100) as u128), ("neg-min", m), ("neg-min+1", m - 1)] {
-              push(&mut out, format!("form=typed;spell={};kind={};mag={}", sp, k, mag), n, if sp == "suffix" { format!("-{}{}", val, k) } else { format!("-{}<{}>", val, k) }, json!({"exact": sc_i(k, (val as i128).wrapping_neg())}));
+              push(&mut out, format!("form=typed;spell={};kind={};mag={}", sp, k, mag), n, if sp == "suffix" { format!("-{}{}", val, k) } else if sp == "annot-opt" { format!("-{}<{}?>", val, k) } else { format!("-{}<{}>", val, k) }, json!({"exact": sc_i(k, (val as i128).wrapping_neg())}));
             }
           }
         }
